@@ -117,6 +117,9 @@ type Entry struct {
 	Augmented  []*Entry                   `json:",omitempty"` // Augments merged into this entry.
 	Deviations []*DeviatedEntry           `json:"-"`          // Deviations associated with this entry.
 	Deviate    map[deviationType][]*Entry `json:"-"`
+	// deviateOrder records the deviate substatements of a deviation in the
+	// order they were written, which is the order they must be applied in.
+	deviateOrder []deviateGroup
 	// deviationPresence tracks whether certain attributes for a DeviateEntry-type
 	// Entry have been given deviation values.
 	deviatePresence deviationPresence
@@ -506,6 +509,32 @@ var (
 
 func (d deviationType) String() string {
 	return fromDeviation[d]
+}
+
+// A deviateGroup is the deviate substatements of one kind that were written
+// next to each other in a deviation.
+type deviateGroup struct {
+	dt      deviationType
+	entries []*Entry
+}
+
+// orderedDeviates returns the contents of e.Deviate in the order the deviate
+// substatements were written.  An Entry whose Deviate map was filled in by
+// other means is visited in the order of the deviation types.
+func (e *Entry) orderedDeviates() []deviateGroup {
+	if len(e.deviateOrder) > 0 {
+		return e.deviateOrder
+	}
+	var dts []deviationType
+	for dt := range e.Deviate {
+		dts = append(dts, dt)
+	}
+	sort.Slice(dts, func(i, j int) bool { return dts[i] < dts[j] })
+	var groups []deviateGroup
+	for _, dt := range dts {
+		groups = append(groups, deviateGroup{dt, e.Deviate[dt]})
+	}
+	return groups
 }
 
 // DeviatedEntry stores a wrapped Entry that corresponds to a deviation.
@@ -953,6 +982,11 @@ func ToEntry(n Node) (e *Entry) {
 					}
 
 					e.Deviate[dt] = append(e.Deviate[dt], de)
+					if n := len(e.deviateOrder); n > 0 && e.deviateOrder[n-1].dt == dt {
+						e.deviateOrder[n-1].entries = append(e.deviateOrder[n-1].entries, de)
+					} else {
+						e.deviateOrder = append(e.deviateOrder, deviateGroup{dt, []*Entry{de}})
+					}
 				}
 			}
 		case "mandatory":
@@ -1136,7 +1170,8 @@ func (e *Entry) ApplyDeviate(deviateOpts ...DeviateOpt) []error {
 			continue
 		}
 
-		for dt, dv := range d.Deviate {
+		for _, dg := range d.orderedDeviates() {
+			dt, dv := dg.dt, dg.entries
 			for _, devSpec := range dv {
 				switch dt {
 				case DeviationAdd, DeviationReplace:
